@@ -8,7 +8,7 @@ are) and compared with the contract.  Renaming, extracting helpers, early return
 root` into `nested(path)` and similar rewrites leave the effects - and therefore the verdict - unchanged."""
 from __future__ import annotations
 
-from ..absint import Model, Opq, Atom as AtomV, Raised, Unknown, freeze, truth
+from ..absint import Model, Opq, Atom as AtomV, Raised, Unknown, freeze, truth, TreeDef
 from ..model import AnalysisError
 from ..symeval import subterms, is_const, C, NONE
 import ast
@@ -57,7 +57,14 @@ def split_list(lst, ns):
     return out
 
 
-FUNCS = {"jax.tree_util.tree_leaves": lambda x, **kw: flat(x), "jax._src.util.split_list": split_list, "jax.util.split_list": split_list,
+def _unflatten(td, leaves):
+    if not isinstance(td, TreeDef):
+        raise Unknown(f"tree_unflatten with a tree definition the model does not know: {td!r}")
+    return td.unflatten(leaves)
+
+
+FUNCS = {"jax.tree_util.tree_unflatten": _unflatten, "jax.tree.unflatten": _unflatten,
+         "jax.tree_util.tree_leaves": lambda x, **kw: flat(x), "jax._src.util.split_list": split_list, "jax.util.split_list": split_list,
          "jax.tree.leaves": lambda x, **kw: flat(x),
          # sub-jaxprs held by an equation's params: the finite models' equations (other than the scan arm's, which never reaches the
          # fall-through) carry none
@@ -461,7 +468,7 @@ def interpreter_rules(ctx, rule="OWN-namespace-relative-store"):
 
     # --- state_p: named / leaf stores relative to the namespace stack; values pass through
     construct = "state.State.eval_jaxpr_state[state_p]"
-    fails, through, models = {}, {}, 0
+    fails, through, structure, models = {}, {}, {}, 0
     for wrapped in (False, True):
         for depth in (0, 1, 2):
             for n in (1, 2, 3):
@@ -469,29 +476,45 @@ def interpreter_rules(ctx, rule="OWN-namespace-relative-store"):
                     nm = "x" if mode == "named" else SENT
                     vals = [Opq("v", i) for i in range(n)]
                     stack = ["a", "b"][:depth]
-                    params, inner = ({}, {"name": nm}) if wrapped else ({"name": nm}, {})
-                    m = I.model(ST + "state_p", params, inner, invals=list(vals), stack=list(stack))
-                    models += 1
-                    try:
-                        effs = I.effects(m)
-                        value = vals[0] if n == 1 else tuple(vals)
-                        if mode == "named":
-                            want = [("write", tuple(stack) + ("x",), value)]
-                        elif depth == 0:
-                            want = [("raise",)]
+                    for shape in ("leaves", "dict", "list1"):
+                        # the operands are the FLAT leaves of the tagged values; the primitive carries the values' tree structure (in_tree):
+                        # 'dict' tags {"a": v0, "b": v1} first, 'list1' tags the one-element list [v0] first, the other values are leaves
+                        vals = [Opq("v", i) for i in range(n + (shape == "dict"))]
+                        if shape == "leaves":
+                            tmpl = tuple(range(n))
+                        elif shape == "dict":
+                            tmpl = ({"a": 0, "b": 1},) + tuple(range(2, n + 1))
                         else:
-                            want = [("write", tuple(stack), value)]
-                        got = [(e[0],) + tuple(e[1:3]) if e[0] == "write" else e[:1] + tuple(e[1:]) for e in effs]
-                        ok = len(got) == len(want) and all(a[0] == b[0] and (a[0] != "write" or (tuple(a[1]) == tuple(b[1]) and seq_eq(a[2], b[2]))) for a, b in zip(got, want))
-                        if not ok:
-                            wanttxt = "raise (leaf save outside any namespace)" if want == [("raise",)] else f"write[{'/'.join(want[0][1])}]={want[0][2]!r}"
-                            fails.setdefault((mode, "root" if depth == 0 else "nested"), f"{mode} save of {n} value(s) under namespaces {stack}: expected {wanttxt}, found {fmt(effs)}")
-                        if want != [("raise",)] and ok:
-                            out = m.ev(I.OUT)
-                            if not seq_eq(out, vals):
-                                through.setdefault("out", f"{mode} save of {n} value(s): the equation's outputs are {out!r}, not the tagged values {vals!r}")
-                    except Unknown as e:
-                        raise AnalysisError(f"{construct}: cannot evaluate the arm in model ({mode}, depth {depth}, {n} values): {e}")
+                            tmpl = ([0],) + tuple(range(1, n))
+                        meta = {"name": nm, "in_tree": TreeDef("tmpl", tmpl), "num_consts": 0, "yes_kwargs": False}
+                        params, inner = ({}, meta) if wrapped else (meta, {})
+                        m = I.model(ST + "state_p", params, inner, invals=list(vals), stack=list(stack))
+                        models += 1
+                        try:
+                            effs = I.effects(m)
+                            tagged = TreeDef("tmpl", tmpl).unflatten(vals)
+                            value = tagged[0] if n == 1 else tuple(tagged)
+                            if mode == "named":
+                                want = [("write", tuple(stack) + ("x",), value)]
+                            elif depth == 0:
+                                want = [("raise",)]
+                            else:
+                                want = [("write", tuple(stack), value)]
+                            got = [(e[0],) + tuple(e[1:3]) if e[0] == "write" else e[:1] + tuple(e[1:]) for e in effs]
+                            ok = len(got) == len(want) and all(a[0] == b[0] and (a[0] != "write" or (tuple(a[1]) == tuple(b[1]) and seq_eq(a[2], b[2]))) for a, b in zip(got, want))
+                            if not ok and shape != "leaves" and want != [("raise",)]:
+                                structure.setdefault(shape, f"{mode} save of {n} value(s), the first one {'a dictionary {a: v0, b: v1}' if shape == 'dict' else 'the one-element list [v0]'}: "
+                                                     f"expected write[{'/'.join(want[0][1])}]={want[0][2]!r}, found {fmt(effs)} — the equation's operands are the values' flat leaves; "
+                                                     "the collected value must be rebuilt with the primitive's in_tree")
+                            elif not ok:
+                                wanttxt = "raise (leaf save outside any namespace)" if want == [("raise",)] else f"write[{'/'.join(want[0][1])}]={want[0][2]!r}"
+                                fails.setdefault((mode, "root" if depth == 0 else "nested"), f"{mode} save of {n} value(s) under namespaces {stack}: expected {wanttxt}, found {fmt(effs)}")
+                            if want != [("raise",)] and ok:
+                                out = m.ev(I.OUT)
+                                if not seq_eq(out, vals):
+                                    through.setdefault("out", f"{mode} save of {n} value(s): the equation's outputs are {out!r}, not the tagged values {vals!r}")
+                        except Unknown as e:
+                            raise AnalysisError(f"{construct}: cannot evaluate the arm in model ({mode}, depth {depth}, {n} values): {e}")
     if fails:
         for (mode, where), msg in sorted(fails.items()):
             key = {("named", "nested"): "named store under the namespace path", ("named", "root"): "root-level store only when the namespace stack is empty",
@@ -499,6 +522,11 @@ def interpreter_rules(ctx, rule="OWN-namespace-relative-store"):
             ctx.bad(rule, construct, key, msg, I.loc)
     else:
         ctx.ok(rule, construct, f"named, root and leaf stores are relative to the namespace stack in all {models} models (sentinel {SENT!r} shared with save())")
+    if structure and not fails:
+        for shape, msg in sorted(structure.items()):
+            ctx.bad("ROLE-state-collect-structure", construct, f"collected value keeps its pytree structure ({shape})", msg, I.loc)
+    elif not fails:
+        ctx.ok("ROLE-state-collect-structure", construct, "a tagged dictionary / list is collected as the dictionary / list (rebuilt from the flat operands with in_tree), not as the tuple of its leaves")
     if through:
         ctx.bad(rule, construct, "tagged values pass through unchanged", through["out"], I.loc)
     elif not fails:
@@ -1039,9 +1067,33 @@ def tag_state_rules(ctx, rule="ROLE-tag_state"):
         nm = ev.kwget(inner[3], "name")
         fn = inner[2][0] if inner[2] else None
         try:
-            good = nm is not None and m.ev(nm) == "nm" and full[2] == (("star", VA),) and fn is not None and fn[0] in ("closure", "name") and identity_ok(ev, fn)
+            good = nm is not None and m.ev(nm) == "nm" and not full[3] and fn is not None and fn[0] in ("closure", "name") and identity_ok(ev, fn)
         except Unknown:
             good = False
+        # the operands of the re-inserted tag are the vectorised VALUES: the rule receives their flat leaves (vector_args) and the values'
+        # tree structure (params["in_tree"]); evaluated in finite models — flat leaves only, a dictionary first, a one-element list first
+        lost = None
+        for tmpl in ((0,), (0, 1), (0, 1, 2), ({"a": 0, "b": 1}, 2), ([0],)) if good else ():
+            nleaves = len(flat(TreeDef("tmpl", tmpl).unflatten(list(range(8)))))
+            va = tuple(Opq("va", i) for i in range(nleaves))
+            mm = Model(funcs=FUNCS)
+            mm.bind(P, {"name": "nm", "in_tree": TreeDef("tmpl", tmpl), "num_consts": 0, "yes_kwargs": False})
+            mm.bind(VA, va)
+            mm.bind(DIMS, tuple(AtomV("d", i) for i in range(nleaves)))
+            try:
+                ops, kw = mm.args_of(full)
+            except Unknown as e:
+                raise AnalysisError(f"state.tag_state.batch_rule: cannot evaluate the operands of the re-inserted tag: {e}")
+            want = TreeDef("tmpl", tmpl).unflatten(va)
+            if kw or not seq_eq(flat(list(ops)), list(va)):
+                good = False
+                break
+            if freeze(tuple(ops)) != freeze(tuple(want)) and lost is None:
+                lost = f"values {want!r} are re-tagged as {tuple(ops)!r}"
+        if good and lost:
+            ctx.bad("ROLE-state-collect-structure", "state.tag_state.batch_rule (re-bind)", "re-inserted tag keeps the values' pytree structure",
+                    f"under vmap the tag is re-inserted on the flat leaves: {lost}, so a dictionary / list saved under vmap is collected as the tuple of its leaves; "
+                    "rebuild the values with params['in_tree'] before re-binding", func_loc(ctx, dotted))
         # the re-inserted tag must itself be batchable by the same rule: a second batching level (vmap of vmap, vmap of modular_vmap, a scan
         # body under two vmaps) otherwise falls back to initial_style_bind's default batcher, which batches the identity and does NOT re-bind
         # state_p — the tag disappears from the Jaxpr and the value is never collected
@@ -1065,7 +1117,7 @@ def tag_state_rules(ctx, rule="ROLE-tag_state"):
         dims = tuple(AtomV("d", i) for i in range(n))
         m.bind(DIMS, dims)
         m.bind(VA, tuple(Opq("va", i) for i in range(n)))
-        m.bind(P, {"name": "nm"})
+        m.bind(P, {"name": "nm", "in_tree": TreeDef("tmpl", tuple(range(n))), "num_consts": 0, "yes_kwargs": False})
         res = AtomV("res") if n == 1 else tuple(Opq("res", i) for i in range(n))
         m.bind(full, res)
         try:
